@@ -48,15 +48,21 @@ def exp_doy(y, mo, d, mm, dd):
     return (yy, mm, dd)
 
 
+def _k_latentdom(mo, d, h, mi, s, dom):
+    # kernel WITHOUT a contract: CrossHair short-circuits calls to functions that carry one
+    # (it assumes their postcondition), which would make a wrapper obligation vacuous
+    r = _latentdom(datetime(CELL_Y, mo, d, h, mi, s), Time(day=dom))
+    e = exp_dom(CELL_Y, mo, d, dom)
+    return r is not None and key_time(r) == (e[0], e[1], e[2], None, None, None, None)
+
+
 def ob_latentdom(mo: int, d: int, h: int, mi: int, s: int, dom: int) -> bool:
     """
     pre: 1 <= mo <= 12 and 1 <= d <= mdays(CELL_Y, mo)
     pre: 0 <= h <= 23 and 0 <= mi <= 59 and 0 <= s <= 59 and 1 <= dom <= 31
     post: _
     """
-    r = _latentdom(datetime(CELL_Y, mo, d, h, mi, s), Time(day=dom))
-    e = exp_dom(CELL_Y, mo, d, dom)
-    return r is not None and key_time(r) == (e[0], e[1], e[2], None, None, None, None)
+    return _k_latentdom(mo, d, h, mi, s, dom)
 
 
 def ob_latentdoy(mo: int, d: int, h: int, mi: int, s: int, mm: int, dd: int) -> bool:
@@ -66,6 +72,10 @@ def ob_latentdoy(mo: int, d: int, h: int, mi: int, s: int, mm: int, dd: int) -> 
     pre: 1 <= mm <= 12 and 1 <= dd <= mdays(None, mm)
     post: _
     """
+    return _k_latentdoy(mo, d, h, mi, s, mm, dd)
+
+
+def _k_latentdoy(mo, d, h, mi, s, mm, dd):
     r = _latentdoy(datetime(CELL_Y, mo, d, h, mi, s), Time(month=mm, day=dd))
     e = exp_doy(CELL_Y, mo, d, mm, dd)
     return r is not None and key_time(r) == (e[0], e[1], e[2], None, None, None, None)
@@ -185,7 +195,7 @@ def ob_latentdom_c(d: int, h: int, mi: int, s: int, dom: int) -> bool:
     pre: 0 <= h <= 23 and 0 <= mi <= 59 and 0 <= s <= 59 and 1 <= dom <= 31
     post: _
     """
-    return ob_latentdom(CELL_M, d, h, mi, s, dom)
+    return _k_latentdom(CELL_M, d, h, mi, s, dom)
 
 
 def lift_latentdom_c(d, h, mi, s, dom):
@@ -199,7 +209,7 @@ def ob_latentdoy_c(d: int, h: int, mi: int, s: int, mm: int, dd: int) -> bool:
     pre: 1 <= mm <= 12 and 1 <= dd <= mdays(None, mm) and not (mm == 2 and dd == 29)
     post: _
     """
-    return ob_latentdoy(CELL_M, d, h, mi, s, mm, dd)
+    return _k_latentdoy(CELL_M, d, h, mi, s, mm, dd)
 
 
 def lift_latentdoy_c(d, h, mi, s, mm, dd):
@@ -212,7 +222,7 @@ def ob_latentdoy_feb29_c(d: int, h: int, mi: int, s: int) -> bool:
     pre: 0 <= h <= 23 and 0 <= mi <= 59 and 0 <= s <= 59
     post: _
     """
-    return ob_latentdoy(CELL_M, d, h, mi, s, 2, 29)
+    return _k_latentdoy(CELL_M, d, h, mi, s, 2, 29)
 
 
 def lift_latentdoy_feb29_c(d, h, mi, s):
